@@ -3,7 +3,8 @@ get_dataarray_resolution (NumPy backend) on a list of jobs and prints one encode
 
 stdin: {"jobs": [...]}.  job = {kind, H, W, vals (rows; numbers or "nan"), dtype,
         meta {rk, rx [n,d], ry [n,d], xs [ints], ys [ints], cd}, az, alt, chunks ([rows, cols] -> Dask),
-        layout C|F|T|S|R (memory layout), dims (dimension names), off (integer added to every elevation), ...}
+        layout C|F|T|S|R (memory layout), dims (dimension names), off (integer added to every elevation),
+        sh (SCALE family: every elevation times 2^sh; float dtypes), ...}
 
 kinds  F  formula case -> all four outputs, bridged to integers (see spec/Stencil_Judge.tla)
        G  general raster (floats) -> outputs as integers + NaN mask
@@ -66,6 +67,8 @@ def build(j, vals=None):
     rows = j["vals"] if vals is None else vals
     a = np.array([[np.nan if v == "nan" else float(v) for v in row] for row in rows], dtype=np.float64)
     a = a + j.get("off", 0)                    # elevations near the top of the raster dtype (exact in float64)
+    if j.get("sh"):
+        a = a * (2.0 ** j["sh"])               # SCALE family: the integer raster times a power of two (exact)
     dt = j.get("dtype", "float64")
     a = relayout(a.astype(dt), j.get("layout", "C"))
     m = j.get("meta") or {"rk": "none", "rx": [0, 1], "ry": [0, 1], "xs": [], "ys": [], "cd": 1}
@@ -160,20 +163,37 @@ def case_F(j):
         for f in ("slope", "slo", "shi", "aspect", "alo", "ahi", "curv", "clo", "chi", "hill", "hcand"):
             c[f] = []
         return c
+    # SCALE family (sh != 0): the raster was (integer raster) * 2^sh.  The exact laws (Stencil.tla, ScaleLaw): aspect
+    # unchanged, tan(slope) and curvature and the hillshade gradient scale by 2^sh.  The bridge divides the observed
+    # tan^2 / curvature back by the (exact) power of two, so TLC judges against the INTEGER raster; tolerances become
+    # relative (1e-5 of the angle + 4 float32 ulp) because 1e-3 degrees absolute says nothing about a 1e-8 degree slope.
+    sh = j.get("sh", 0)
+    sc = 2.0 ** sh
     s = o["slope"].astype(np.float64)
-    c["slope"] = micro(s)
+    # micro-degrees, but a non-zero slope never encodes as 0 ("slope is 0 iff the gradient is 0" is judged exactly)
+    c["slope"] = [[NAN if np.isnan(v) else (int(round(float(v) * 1e6)) or (1 if v > 0 else (-1 if v < 0 else 0)))
+                   for v in row] for row in s]
     slo, shi = [], []
+    CAP = 32 * SK
     for row in s:
         l, h = [], []
         for v in row:
             if np.isnan(v):
                 l.append(0); h.append(0)
-            else:
+            elif sh == 0:
                 a0 = max(v - TOL, 0.0)
                 a1 = v + TOL
                 # beyond 80 degrees tan^2 explodes: lower bound capped (sound), upper bound "unbounded" (-1)
                 l.append(int(math.floor(math.tan(math.radians(min(a0, 80.0))) ** 2 * SK)))
                 h.append(int(math.ceil(math.tan(math.radians(a1)) ** 2 * SK)) if a1 < 80.0 else -1)
+            else:
+                tv = 1e-5 * abs(v) + 4 * float(np.spacing(np.float32(abs(v))))
+                a0 = min(max(v - tv, 0.0), 89.999999)
+                a1 = v + tv
+                lo = math.tan(math.radians(a0)) ** 2 / (sc * sc) * SK
+                l.append(int(math.floor(min(lo, CAP))))
+                hi = math.tan(math.radians(a1)) ** 2 / (sc * sc) * SK if a1 < 89.9999999 else float("inf")
+                h.append(int(math.ceil(hi)) if hi < CAP else -1)
         slo.append(l); shi.append(h)
     c["slo"], c["shi"] = slo, shi
     a = o["aspect"].astype(np.float64)
@@ -191,7 +211,7 @@ def case_F(j):
                 h.append([int(round(math.sin(t1) * 1e6)), int(round(math.cos(t1) * 1e6))])
         alo.append(l); ahi.append(h)
     c["alo"], c["ahi"] = alo, ahi
-    k = o["curvature"].astype(np.float64)
+    k = o["curvature"].astype(np.float64) / sc
     c["curv"] = [[0 if np.isnan(v) else 1 for v in row] for row in k]
     c["clo"] = [[0 if np.isnan(v) else int(math.floor((v - (5e-7 * abs(v) + 1e-9)) * KC)) for v in row] for row in k]
     c["chi"] = [[0 if np.isnan(v) else int(math.ceil((v + (5e-7 * abs(v) + 1e-9)) * KC)) for v in row] for row in k]
@@ -200,7 +220,7 @@ def case_F(j):
     fin = [v for row in j["vals"] for v in row if v != "nan"]
     R = int(max(fin) - min(fin)) if fin else 0
     gx, gy = np.meshgrid(np.arange(-R, R + 1), np.arange(-R, R + 1), indexing="ij")
-    table = hill_formula(gx.astype(np.float64), gy.astype(np.float64), j.get("az", 225), j.get("alt", 25))
+    table = hill_formula(gx.astype(np.float64) * sc, gy.astype(np.float64) * sc, j.get("az", 225), j.get("alt", 25))
     hc = []
     for row in hs:
         l = []
